@@ -57,6 +57,14 @@ def metric_h(y_true, y_pred):
     return SOpaque(tot if tot is not None else z3.RealVal(0))
 
 
+def metric_count(y_true, y_pred):
+    return len(y_true)
+
+
+def metric_count2(y_true, y_pred):
+    return int(2 * len(y_pred))
+
+
 def setup():
     pass
 
@@ -76,7 +84,7 @@ def jobs(tier, seed):
             cols = nsf + ncf
             structs = list(itertools.product(list(rgs(n, maxlev)), repeat=cols))
             chunk = 40
-            for form in ("callable", "dict", "dict2"):
+            for form in ("callable", "dict", "dict2", "intcount"):
                 for lab in (("str",) if tier == "quick" else ("str", "int")):
                     for ci in range(0, len(structs), chunk):
                         js.append({"id": f"{name}-n{n}-{form}-{lab}-{ci // chunk}", "layout": name, "nsf": nsf, "ncf": ncf, "n": n, "form": form,
@@ -104,6 +112,27 @@ def _cells(obj, names, series_is_metrics=False):
     else:
         out[names[0]] = {(): obj}
     return out
+
+
+def _intcount_problems(out, gcols, uniq, cf_cols, n, ncf):
+    _, bgc, ovc, bgd, ovd = out
+    problems = []
+    expected_index = set(itertools.product(*uniq))
+    for label, bg, names, mult in (("callable", bgc, ["metric_count"], {"metric_count": 1}), ("dict", bgd, ["n", "n2"], {"n": 1, "n2": 2})):
+        cells = _cells(bg, names)
+        for m in names:
+            if m not in cells or set(cells[m].keys()) != expected_index:
+                problems.append(f"{label}: index of {m} is not the product of observed values")
+                continue
+            for combo in expected_index:
+                rows = [i for i in range(n) if all(gcols[c][i] == combo[c] for c in range(len(gcols)))]
+                v = cells[m][combo]
+                if not rows:
+                    if not core.is_nan(v) and not (isinstance(v, float) and math.isnan(v)):
+                        problems.append(f"{label}: empty combination {combo} of integer metric {m} reported as {v!r}, not NaN")
+                elif float(v) != mult[m] * len(rows):
+                    problems.append(f"{label}: {m}{combo} = {v!r}, rows {len(rows)}")
+    return problems
 
 
 def run_job(job, deadline):
@@ -134,6 +163,11 @@ def run_job(job, deadline):
                     mf = MetricFrame(metrics=metric_g, y_true=np.array(t, dtype=object), y_pred=p, sensitive_features=sf, control_features=cf,
                                      sample_params={"s": np.array(s, dtype=object)})
                     names = ["metric_g"]
+                elif job["form"] == "intcount":
+                    # integer-valued metrics only (row count, bare and in a dict): cells are python/numpy ints, an empty combination is still NaN
+                    mfc = MetricFrame(metrics=metric_count, y_true=t, y_pred=p, sensitive_features=sf, control_features=cf)
+                    mfd = MetricFrame(metrics={"n": metric_count, "n2": metric_count2}, y_true=t, y_pred=p, sensitive_features=sf, control_features=cf)
+                    return ("intcount", mfc.by_group, mfc.overall, mfd.by_group, mfd.overall)
                 elif job["form"] == "dict":
                     mf = MetricFrame(metrics={"g": metric_g, "h": metric_h}, y_true=t, y_pred=np.array(p, dtype=object), sensitive_features=sf,
                                      control_features=cf, sample_params={"g": {"s": s}})
@@ -153,6 +187,14 @@ def run_job(job, deadline):
             ex = {"struct": struct, "si": si}
             if isinstance(out, Exception):
                 acc.exception_cex(ctx, out, signature=f"exception:{type(out).__name__}:n{'1' if n == 1 else '>1'}", extra=ex)
+                return
+            if isinstance(out, tuple) and out and isinstance(out[0], str) and out[0] == "intcount":
+                acc.reach(ctx)
+                gcols = cf_cols + sf_cols
+                uniq = [sorted(set(c)) for c in gcols]
+                problems = _intcount_problems(out, gcols, uniq, cf_cols, n, ncf)
+                acc.check(ctx, "integer_metric_cells_are_row_counts_and_empty_cells_nan", z3.BoolVal(not problems), signature="intcount", extra=dict(ex, problems=problems[:3]))
+                acc.canary(ctx, "canary_intcount", z3.BoolVal(False))
                 return
             t, p, s, by_group, overall, names, slev, clev = out
             acc.reach(ctx)
@@ -265,6 +307,12 @@ def replay(cex):
         sf = pd.DataFrame({f"S{j}": sf_cols[j] for j in range(nsf)}, index=idx) if nsf > 1 else pd.Series(sf_cols[0], index=idx, name="sensitive_feature_0")
         cf = None if ncf == 0 else (pd.DataFrame({f"C{j}": cf_cols[j] for j in range(ncf)}, index=idx) if ncf > 1 else pd.Series(cf_cols[0], index=idx, name="control_feature_0"))
     bad = []
+    if job["form"] == "intcount":
+        mfc = MetricFrame(metrics=metric_count, y_true=t, y_pred=p, sensitive_features=sf, control_features=cf)
+        mfd = MetricFrame(metrics={"n": metric_count, "n2": metric_count2}, y_true=t, y_pred=p, sensitive_features=sf, control_features=cf)
+        gcols = cf_cols + sf_cols
+        problems = _intcount_problems(("intcount", mfc.by_group, mfc.overall, mfd.by_group, mfd.overall), gcols, [sorted(set(c)) for c in gcols], cf_cols, n, ncf)
+        return {"reproduced": bool(problems), "detail": "; ".join(problems)[:600] + f" | struct={struct} layout={job['layout']}"}
     try:
         if job["form"] == "callable":
             mf = MetricFrame(metrics=g, y_true=np.array(t), y_pred=p, sensitive_features=sf, control_features=cf, sample_params={"s": np.array(s)})
